@@ -101,6 +101,17 @@ func main() {
 			fail(err)
 		}
 		fmt.Printf("{\"events\":%d}\n", n)
+	case "regs":
+		fs := flag.NewFlagSet(mod, flag.ExitOnError)
+		in := fs.String("in", "", "registration scenarios (ndjson)")
+		out := fs.String("out", "", "trace file")
+		seed := fs.Int64("seed", 1, "seed")
+		fs.Parse(args)
+		n, err := relaydrv.RunRegs(*in, *out, *seed)
+		if err != nil {
+			fail(err)
+		}
+		fmt.Printf("{\"events\":%d}\n", n)
 	default:
 		fail(fmt.Errorf("unknown module %q", mod))
 	}
